@@ -8,13 +8,14 @@ def jobs(ctx):
     js.append(("sort_ops", ["big", 8 if q else 60, 99]))
     js += [("sort_ops", ["comp", 2100 if q else 21000, 50 + k, 3000]) for k in range(4)]
     js += [("sort_ops", ["adv", 150 if q else 1500, 70 + k, 3000 if q else 12000]) for k in range(4)]
+    js += [("sort_ops", ["cmpc", 200 if q else 4000, 90 + k]) for k in range(4)]
     return js
 
 
 def nontrivial(l):
     if not (l.startswith("Q ") or l.startswith("QC ")):
         return None
-    f = dict(w.split("=", 1) for w in l.split()[1:11] if "=" in w)
+    f = dict(w.split("=", 1) for w in l.split()[1:13] if "=" in w)
     if int(f.get("n", "0")) < 2:
         return None
     return (f.get("which", "sort"), f["shift"], f.get("cancel"), f["n"], f["shape"], hash(l))
@@ -22,7 +23,7 @@ def nontrivial(l):
 
 def describe(l):
     f = dict(w.split("=", 1) for w in l.split()[1:] if "=" in w)
-    d = {k: f.get(k) for k in ("which", "arg", "shift", "threads", "cancel", "n", "shape", "ret", "loads", "same", "r", "b") if k in f}
+    d = {k: f.get(k) for k in ("which", "arg", "shift", "threads", "cancel", "raised", "cmpcancel", "n", "shape", "ret", "loads", "same", "r", "b") if k in f}
     d["data_head"] = f.get("data", "")[:200]
     d["out_head"] = f.get("out", "")[:200]
     return d
@@ -39,7 +40,9 @@ def run(ctx):
              "sorted, reversed, organ pipe, few keys, all equal, sawtooth, mostly sorted, median-of-three killer, ascending runs) plus McIlroy's killer adversary run "
              "against the real sort (its frozen keys drive the sort into break_patterns and the heapsort fallback; lengths 30..3000, thorough 12000), comparators (a>>s)<(b>>s) with "
              "s in {0,3,7} (ties), pools of 1/2/8/16 threads (all must produce the identical slice), cancel flag raised at the k-th flag load through the yield "
-             "point (k = 0 or 1..6, single thread) or never; model = implementation on the final slice and the returned flag; each private building block (insertion_sort, partial_insertion_sort, heapsort, partition, partition_equal, break_patterns, choose_pivot) "
+             "point (k = 0 or 1..6, single thread), or by the comparison closure at a random one of the sort's comparisons (a cancel arriving at an arbitrary moment; "
+             "arrangements incl. a sorted run followed/preceded by a scrambled run, lengths 30..4200; the model is told which flag load first saw the flag), or never; "
+             "'not cancelled' must imply sorted whatever happened to the flag; model = implementation on the final slice and the returned flag; each private building block (insertion_sort, partial_insertion_sort, heapsort, partition, partition_equal, break_patterns, choose_pivot) "
              "called directly through the cfg-gated facade on the same arrangements, model = implementation on slice and return value, and the block's own contract "
              "(sorted / split point separates the slice) evaluated on the implementation's output; distinct non-trivial = distinct inputs of length >= 2",
         nontrivial=nontrivial, describe=describe, shrinker=shrink_line,
